@@ -132,3 +132,235 @@ RECIPES = [
      "stored probe value not refreshed after the bracket end moves"),
     ("C20", "neutral", [], S, "            return int(r[()])\n", "            return int(r.item())\n", "scalar through .item()"),
 ]
+
+
+# ---------------------------------------------------------------------------------------------------------------------------------
+# second hardening pass: one construct, many spellings (element-wise application over np.broadcast, dispatch on `which`, Newton loop shapes,
+# bracket search split between functions, library callables by value)
+_OS_BODY = """    if which == "c":
+        r = np.asarray(r)
+        p = np.asarray(p)
+        return binom.sf(r - 1, n, 1 - p)
+    elif which == "r":
+        # c = np.asarray(c)
+        # p = np.asarray(p)
+        # return binom.ppf(1-c, n, 1-p)  # gets 'value too deep error'
+        b = np.broadcast(c, n, p)
+        r = np.empty(b.shape)
+        r.flat = [binom.ppf(1 - c, n, 1 - p) for (c, n, p) in b]
+        if r.ndim == 0:
+            return int(r[()])
+        return r.astype(int)
+    elif which == "n":
+
+""" + _N_ARM + """
+        b = np.broadcast(c, r, p)
+        n = np.empty(b.shape)
+        n.flat = [_run_brentq(c, r, p) for (c, r, p) in b]
+        return np.ceil(n).astype(int)
+    elif which == "p":
+
+        def _func(pr, p, s, n):
+            return p - binom.cdf(s, n, pr)
+
+        b = np.broadcast(c, r, n)
+        n = np.empty(b.shape)
+        n.flat = [1 - brentq(_func, 0, 1, args=(1 - c, r - 1, n)) for (c, r, n) in b]
+        if n.ndim == 0:
+            return n[()]
+        return n
+    raise ValueError("invalid `which` setting")
+"""
+
+_N_ARM_IND = "".join("    " + ln + "\n" if ln else "\n" for ln in _N_ARM.splitlines())
+
+# match statement; hand-kept running index into a ravel() view; np.fromiter over a generator; np.vectorize
+_OS_MATCH = """    match which:
+        case "c":
+            r = np.asarray(r)
+            p = np.asarray(p)
+            return binom.sf(r - 1, n, 1 - p)
+        case "r":
+            b = np.broadcast(c, n, p)
+            r = np.empty(b.shape)
+            out = r.ravel()
+            k = 0
+            for ci, ni, pi in b:
+                out[k] = binom.ppf(1 - ci, ni, 1 - pi)
+                k += 1
+            if r.ndim == 0:
+                return int(r[()])
+            return r.astype(int)
+        case "n":
+
+""" + _N_ARM_IND + """
+            b = np.broadcast(c, r, p)
+            n = np.fromiter((_run_brentq(*t) for t in b), dtype=float, count=b.size).reshape(b.shape)
+            return np.ceil(n).astype(int)
+        case "p":
+
+            def _func(pr, p, s, n):
+                return p - binom.cdf(s, n, pr)
+
+            solve = np.vectorize(lambda c, r, n: 1 - brentq(_func, 0, 1, args=(1 - c, r - 1, n)), otypes=[float])
+            n = solve(c, r, n)
+            if n.ndim == 0:
+                return n[()]
+            return n
+        case _:
+            raise ValueError("invalid `which` setting")
+"""
+
+# table of closures indexed by `which`; starmap into `.flat[:]`; zip(range(size), b) with `.flat[i]`; np.array(list).reshape
+_OS_TABLE = """    import itertools
+
+    def _conf():
+        return binom.sf(np.asarray(r) - 1, n, 1 - np.asarray(p))
+
+    def _rank():
+        b = np.broadcast(c, n, p)
+        out = np.empty(b.shape)
+        out.flat[:] = list(itertools.starmap(lambda c, n, p: binom.ppf(1 - c, n, 1 - p), b))
+        return int(out[()]) if out.ndim == 0 else out.astype(int)
+
+    def _size():
+""" + _N_ARM + """
+        b = np.broadcast(c, r, p)
+        out = np.empty(b.shape)
+        for i, crp in zip(range(b.size), b):
+            out.flat[i] = _run_brentq(*crp)
+        return np.ceil(out).astype(int)
+
+    def _cover():
+        def _func(pr, p, s, n):
+            return p - binom.cdf(s, n, pr)
+
+        b = np.broadcast(c, r, n)
+        vals = [1 - brentq(_func, 0, 1, args=(1 - c, r - 1, n)) for (c, r, n) in b]
+        out = np.array(vals).reshape(b.shape)
+        return out[()] if out.ndim == 0 else out
+
+    table = {"c": _conf, "r": _rank, "n": _size, "p": _cover}
+    if which not in table:
+        raise ValueError("invalid `which` setting")
+    return table[which]()
+"""
+
+_NEWTON_BODY = """rold = r
+        lhi = sn + rold
+        llo = sn - rold
+        num = norm.cdf(lhi) - norm.cdf(llo) - prob
+        den = spi * (np.exp(-(lhi**2) / 2) + np.exp(-(llo**2) / 2))
+        r = rold - num / den
+        loops += 1
+"""
+_NEWTON_ELSE_BREAK = """    while True:
+        if np.any(abs(r - rold) > tol) and loops < MAXLOOPS:
+            """ + _NEWTON_BODY.replace("\n        ", "\n            ") + """        else:
+            break
+"""
+_NEWTON_FLAG = """    moving = True
+    while moving and loops < MAXLOOPS:
+        """ + _NEWTON_BODY + """        moving = np.any(abs(r - rold) > tol)
+"""
+_NEWTON_RETURN_INSIDE = """    while loops < MAXLOOPS:
+        if not np.any(abs(r - rold) > tol):
+            return r
+        """ + _NEWTON_BODY
+_NEWTON_TWO_BREAKS = """    with np.errstate(over="ignore"):
+        while True:
+            if not np.max(np.abs(r - rold)) > tol:
+                break
+            if loops >= MAXLOOPS:
+                break
+            """ + _NEWTON_BODY.replace("\n        ", "\n            ").replace("r = rold - num / den\n            loops += 1", "r, loops = rold - num / den, 1 + loops") + """            if np.any(np.isnan(r)):
+                warnings.warn("nan", RuntimeWarning)
+"""
+
+_N_ARM_HELPER = """        def _func(n, p, s, pr):
+            return p - (1 - betainc(s + 1, n - s, pr))
+
+        def _expand(f, lo, args, limit=30):
+            hi = lo + lo
+            tries = 0
+            while f(hi, *args) < 0 and tries < limit:
+                lo, hi = hi, hi + hi
+                tries = 1 + tries
+            return lo, hi
+
+        def _run_brentq(c, r, p):
+            args = (1 - c, r - 1, 1 - p)
+            if _func(r, *args) >= 0:
+                return r
+            a, b = _expand(_func, r, args)
+            return brentq(_func, a, b, args=args)
+"""
+_N_ARM_SPLIT = """        def _func(n, p, s, pr):
+            return p - (1 - betainc(s + 1, n - s, pr))
+
+        def _search(a, args):
+            b = 2 * a
+            loops = 0
+            while _func(b, *args) < 0 and loops < 30:
+                a, b = b, 2 * b
+                loops += 1
+            return brentq(_func, a, b, args=args)
+
+        def _run_brentq(c, r, p):
+            args = (1 - c, r - 1, 1 - p)
+            return r if _func(r, *args) >= 0 else _search(r, args)
+"""
+_N_ARM_PARTIAL = """        def _func(n, p, s, pr):
+            return p - (1 - betainc(s + 1, n - s, pr))
+
+        def _run_brentq(c, r, p, limit=None):
+            import functools
+            from scipy import optimize
+
+            limit = 30 if limit is None else limit
+            resid = functools.partial(_func, p=1 - c, s=r - 1, pr=1 - p)
+            a = r
+            if (fa := resid(a)) >= 0:
+                return a
+            b = 2 * a
+            for _ in range(limit):
+                if (fb := resid(b)) < 0:
+                    a, b = b, 2 * b
+                    continue
+                break
+            return optimize.brentq(resid, a, b)
+"""
+
+RECIPES += [
+    # ---- behaviour-preserving
+    ("C20", "neutral", [], S, _OS_BODY, _OS_MATCH, "match statement; running index into ravel(); np.fromiter; np.vectorize"),
+    ("C20", "neutral", [], S, _OS_BODY, _OS_TABLE, "table of closures indexed by which; starmap; zip(range(size), b); np.array(list).reshape"),
+    ("C20", "neutral", [], S, "        r.flat = [binom.ppf(1 - c, n, 1 - p) for (c, n, p) in b]\n",
+     "        it = r.flat\n        for i, t in enumerate(b):\n            it[i] = binom.ppf(1 - t[0], t[1], 1 - t[2])\n", "alias of the .flat view, element tuple indexed"),
+    ("C20", "neutral", [], S, "        n.flat = [_run_brentq(c, r, p) for (c, r, p) in b]\n", "        n[...] = np.reshape(list(map(lambda crp: _run_brentq(*crp), b)), b.shape)\n", "map + reshape stored with [...]"),
+    ("C20", "neutral", [], S, _NEWTON, _NEWTON_ELSE_BREAK, "Newton loop: while True with the body under the test and break in the else arm"),
+    ("C20", "neutral", [], S, _NEWTON, _NEWTON_FLAG, "Newton loop: the test carried in a flag set at the end of the pass"),
+    ("C20", "neutral", [], S, _NEWTON, _NEWTON_RETURN_INSIDE, "Newton loop: return from inside the loop, the cap as loop test"),
+    ("C20", "neutral", [], S, _NEWTON, _NEWTON_TWO_BREAKS, "Newton loop: two breaks, largest change, tuple update, unrelated test in the body, with block"),
+    ("C20", "neutral", [], S, "        num = norm.cdf(lhi) - norm.cdf(llo) - prob\n", "        num = norm.sf(llo) - norm.sf(x=lhi, loc=0, scale=1) - prob\n", "survival-function form of the residual"),
+    ("C20", "neutral", [], S, "    spi = 1 / np.sqrt(2 * np.pi)\n", "    import math\n\n    spi = np.power(math.tau, -0.5)\n", "tau, power ufunc, local import"),
+    ("C20", "neutral", [], S, "        den = spi * (np.exp(-(lhi**2) / 2) + np.exp(-(llo**2) / 2))\n", "        den = np.add(norm.pdf(lhi), norm.pdf(llo))\n", "density through norm.pdf"),
+    ("C20", "neutral", [], S, "    while np.any(abs(r - rold) > tol) and loops < MAXLOOPS:", "    while np.logical_and(np.greater(np.absolute(np.subtract(r, rold)), tol).any(), loops < MAXLOOPS):", "comparison and conjunction as ufuncs"),
+    ("C20", "neutral", [], S, "    return nct.ppf(c, n - 1, pnonc) / sn", "    return np.divide(nct(n - 1, pnonc).ppf(c), sn)", "frozen distribution, divide ufunc"),
+    ("C20", "neutral", [], S, "    chi = chi2.ppf(1 - c, n - 1)", "    chi = chi2(df=n - 1).isf(c)", "frozen chi-square, isf"),
+    ("C20", "neutral", [], S, "        return binom.sf(r - 1, n, 1 - p)", "        return binom(n, 1 - p).sf(r - 1)", "frozen binomial"),
+    ("C20", "neutral", [], S, _N_ARM, _N_ARM_HELPER, "doubling loop in a helper that returns the bracket; limit as defaulted parameter"),
+    ("C20", "neutral", [], S, _N_ARM, _N_ARM_SPLIT, "sign test at the lower end in the caller (conditional expression), doubling loop and brentq in a helper"),
+    ("C20", "neutral", [], S, _N_ARM, _N_ARM_PARTIAL, "functools.partial residual, walrus probes, for/continue/break, optimize.brentq, limit defaulting to None"),
+    # ---- broken variants in the new spellings
+    ("C20", "break", ["C20-R2"], S, _NEWTON, _NEWTON_FLAG.replace("np.any(abs(r - rold) > tol)", "np.all(abs(r - rold) > tol)"), "flag form that stops when one element has converged"),
+    ("C20", "break", ["C20-R2"], S, _NEWTON, _NEWTON_RETURN_INSIDE.replace("            return r\n", "            return rold\n"), "return of the previous iterate from inside the loop"),
+    ("C20", "break", ["C20-R2"], S, "    while np.any(abs(r - rold) > tol) and loops < MAXLOOPS:", "    while np.min(np.abs(r - rold)) > tol and loops < MAXLOOPS:", "smallest change compared with the tolerance"),
+    ("C20", "break", ["C20-R4"], S, "        n.flat = [_run_brentq(c, r, p) for (c, r, p) in b]\n", "        n.flat = list(map(lambda crp: _run_brentq(*crp) + 1, b))\n", "map form with an offset on the root"),
+    ("C20", "break", ["C20-R4"], S, "        r.flat = [binom.ppf(1 - c, n, 1 - p) for (c, n, p) in b]\n",
+     "        it = r.flat\n        for i, t in enumerate(b):\n            it[i] = binom.ppf(1 - t[0], t[1], t[2])\n", "element loop with the coverage instead of its complement"),
+    ("C20", "break", ["C20-R5"], S, _N_ARM, _N_ARM_HELPER.replace("            if _func(r, *args) >= 0:\n                return r\n", ""), "helper form without the test at the lower end"),
+    ("C20", "break", ["C20-R5"], S, _N_ARM, _N_ARM_HELPER.replace("< 0 and tries < limit", "< 0 or tries < limit"), "helper form whose loop may stop on the counter alone"),
+    ("C20", "break", ["C20-R4", "C20-R5"], S, _N_ARM, _N_ARM_SPLIT.replace("return r if _func(r, *args) >= 0 else", "return r if _func(r, *args) <= 0 else"), "split form with the early exit on the wrong sign"),
+    ("C20", "break", ["C20-R5"], S, _N_ARM, _N_ARM_SPLIT.replace("return r if _func(r, *args) >= 0 else _search(r, args)", "return _search(r, args)"), "split form without the early exit"),
+]
